@@ -201,12 +201,24 @@ def gen_sizes(rng, prob, feat):
     return sizes
 
 
+HUGE_SIZES = [65536, 50000, 46341, 1 << 20, 65536]
+
+
 def gen_entries(rng, dims, density=None):
     total = 1
     for d in dims:
         total *= d
     if total == 0:
         return []
+    if total > 5000:
+        # hypersparse: a handful of stored coordinates in a huge index space (edges included)
+        k = rng.choice([0, 1, 2, 3, 5]) if density is None or density > 0 else 0
+        seen = []
+        for _ in range(k):
+            c = [rng.choice([0, d - 1, rng.randrange(d), rng.randrange(d)]) for d in dims]
+            if c not in seen:
+                seen.append(c)
+        return [[c, gen_value(rng)] for c in seen]
     allc = list(itertools.product(*[range(d) for d in dims]))
     k = rng.choice([0, 1, 2, max(1, total // 2), max(1, total // 2), total, total, total]) if density is None else density
     k = min(k, total)
@@ -243,6 +255,7 @@ def gen_k_plan(run_seed: int, hashseed: int = 0, catalogue=None, p_backend_c: fl
     else:
         prob = gen_problem(rng, feat)
     sizes = gen_sizes(rng, prob, feat)
+    huge = _huge_classes(prob)
     inputs = {}
     names_in = list(prob["inputs"])
     polar = rng.random() < 0.25 and len(names_in) >= 2  # some operands exhausted at once, the rest full
@@ -269,6 +282,23 @@ def gen_k_plan(run_seed: int, hashseed: int = 0, catalogue=None, p_backend_c: fl
     capacity = rng.choice(CAPACITIES)
     heap_knobs = gen_heap_knobs(rng)
     backend_c = rng.random() < p_backend_c
+    # hypersparse runs: indexes that are stored at compressed levels only get dimensions whose
+    # products leave int32 (each one fits; so does every stored-element count).  Drawn after
+    # everything else; the inputs of such a run are re-drawn from a forked generator.
+    if huge and rng.random() < 0.12:
+        r2 = random.Random(rng.getrandbits(64))
+        pick = huge if r2.random() < 0.6 else [r2.choice(huge)]
+        for c in pick:
+            v = r2.choice(HUGE_SIZES)
+            for x, cx in prob["classes"].items():
+                if cx == c and x in sizes:
+                    sizes[x] = v
+        for n, ix in prob["inputs"].items():
+            dims = [sizes[x] for x in ix]
+            if dims != inputs[n]["dims"]:
+                inputs[n] = {"dims": dims, "entries": gen_entries(r2, dims)}
+        revalues = [{n: [gen_value(r2) for _ in t["entries"]] for n, t in inputs.items()}
+                    for _ in revalues]
     # electric-fence placement (drawn last so that older seeds keep their problem and inputs)
     if rng.random() < 0.3:
         heap_knobs["guard"] = True
@@ -290,6 +320,25 @@ def gen_k_plan(run_seed: int, hashseed: int = 0, catalogue=None, p_backend_c: fl
         "revalues": revalues,
         "backend_c": backend_c,
     }
+
+
+def _huge_classes(prob):
+    """Index classes all of whose occurrences (inputs and target) are at compressed levels."""
+    tname = prob.get("target_name", "A")
+    occ = {}
+    tensors = dict(prob["inputs"])
+    tensors[tname] = prob["target"]
+    for n, ix in tensors.items():
+        f = prob["formats"].get(n)
+        if f is None:
+            f = "d" * len(ix)
+        modes, ordering = parse_fmt(f)
+        if len(modes) != len(ix):
+            return []
+        for l, m in enumerate(modes):
+            x = ix[ordering[l]]
+            occ.setdefault(prob["classes"].get(x, x), []).append(m)
+    return sorted(c for c, ms in occ.items() if ms and all(m == "s" for m in ms))
 
 
 # ------------------------------------------------- catalogue problems from text
